@@ -20,7 +20,7 @@ RULE = ("random DAGs (<= 7 providers, depth <= 4, fan-out <= 3, shared sub-depen
         "fingerprint = canonical DAG + overrides + failure + converter; trivial = graphs without any edge")
 ASSUMPTIONS = ["in-memory broker; virtual time; sync providers run through an inline executor (the asyncify wrapper is kept)"]
 EVAL_COUNTER = "invocations_judged"
-REQUIRED = ["invocations_judged", "graphs_with_shared_subdeps", "overrides_applied", "provider_failures", "declaration_rejections", "msg_leaves", "concurrent_twins", "fresh_executions", "same_function_depends_runs", "shadowing_payload_jobs"]
+REQUIRED = ["invocations_judged", "graphs_with_shared_subdeps", "overrides_applied", "provider_failures", "declaration_rejections", "msg_leaves", "concurrent_twins", "fresh_executions", "same_function_depends_runs", "shadowing_payload_jobs", "exception_valued_providers"]
 CASE_TIMEOUT = 120
 
 
@@ -248,6 +248,10 @@ async def shadow_scenario(loop, case, out, stats, fps):
         seen = []
         register_shadow_actors(r, seen, with_kwargs=case["conv"] == "basic")
         await w.conn.message_broker.queue_declare("default")
+        from rv.actors import register_excvalue_actors
+
+        seen_exc = []
+        register_excvalue_actors(r, seen_exc)
         payloads = [{"a": 1}, {"a": 1, "x0": "from-payload"}, {"a": 1, "m": "from-payload"}, {"a": 1, "x0": ["from-payload"], "m": {"k": 1}, "zz": 3}]
         n = 0
         for name in ("shadowed", "shadowed_plain"):
@@ -256,6 +260,9 @@ async def shadow_scenario(loop, case, out, stats, fps):
             for pl in payloads:
                 await Job(name, id_=f"s{n}", args=pl, args_id=f"args-s{n}", retries=0, store_result=False, _connection=w.conn).enqueue()
                 n += 1
+        for name in ("takes_error", "takes_parent"):
+            await Job(name, id_=f"s{n}", retries=0, store_result=False, _connection=w.conn).enqueue()
+            n += 1
         worker = w.worker([r], tasks_limit=3, graceful_shutdown_time=3.0, handle_signals=[__import__("signal").SIGUSR1])
         done = lambda: len({e["id"] for e in w.log.events if e.get("k") == "call" and e.get("depth") == 0 and e.get("op") in ("ack", "nack")}) >= n  # noqa: E731
         info = await run_worker(w, worker, until=done, horizon=10.0, poll=0.1)
@@ -265,6 +272,14 @@ async def shadow_scenario(loop, case, out, stats, fps):
         stats["shadowing_payload_jobs"] += n
         if not any(rc["extra"] == {} and rc["x0"] == ("provided", ()) for rc in seen):
             out.append(V("missing_invocation", "shadow", f"not even the plain payload ran: {seen[:2]}"))
+        # a provider that RETURNS an exception object (or class) has returned a value like any other
+        want_exc = {"takes_error": ("ConnectionResetError", "peer went away"), "takes_parent": (("parent", "KeyError", True), "StopIteration")}
+        got_exc = {rc["actor"]: rc["value"] for rc in seen_exc}
+        stats["exception_valued_providers"] += len(want_exc)
+        for actor, want in want_exc.items():
+            stats["invocations_judged"] += 1
+            if normalize(got_exc.get(actor)) != normalize(want):
+                out.append(V("value_mismatch" if actor in got_exc else "missing_invocation", f"{case['conv']}/provider-returns-an-exception-object", f"{actor}: received {got_exc.get(actor)!r}, its providers return {want!r}"))
         for rc in seen:
             stats["invocations_judged"] += 1
             if normalize(rc["x0"]) != ("provided", ()) or not rc["m_is_handle"]:
